@@ -521,4 +521,85 @@ func main() {
 	fmt.Println("done")
 }
 `},
+	// eef6ac5 / 8600fa9 / 3081633 / bf66b2a: a deferred variadic call written with an ellipsis spreads its slice (interpreted,
+	// native, method, literal and held callees), a variadic callee without variadic arguments gets a nil slice, the receiver of
+	// a deferred method call is the one of the defer statement, a recovered nil asserted to an interface type is false.
+	{"deferred-variadic-and-receivers", `package main
+
+import (
+	"errors"
+	"fmt"
+)
+
+type T struct{ a, b int }
+
+func (t T) M(x int)   { fmt.Println("value-method", t.a, t.b, x) }
+func (t *T) PM(x int) { fmt.Println("pointer-method", t.a, t.b, x) }
+
+func sum(tag string, xs ...int) {
+	s := 0
+	for _, x := range xs {
+		s += x
+	}
+	fmt.Println(tag, len(xs), s, xs == nil)
+}
+
+type V struct{}
+
+func (V) Spread(tag string, xs ...string) { fmt.Println("method-spread", tag, len(xs), xs) }
+
+func recv() {
+	t := T{1, 2}
+	p := &t
+	defer t.M(1)
+	defer t.PM(2)
+	defer p.M(3)
+	defer p.PM(4)
+	t = T{7, 8}
+	t.a = 9
+}
+
+func variadic() {
+	xs := []int{1, 2, 3}
+	defer sum("spread", xs...)
+	defer sum("listed", 4, 5)
+	defer sum("none")
+	var none []int
+	defer sum("nil-spread", none...)
+	args := []interface{}{"println-spread", 1, "two"}
+	defer fmt.Println(args...)
+	defer fmt.Println("println-listed", 1, "two")
+	defer fmt.Printf("%s-%d\n", []interface{}{"printf-spread", 7}...)
+	ss := []string{"a", "b"}
+	defer V{}.Spread("m", ss...)
+	defer func(xs ...int) { fmt.Println("literal-spread", xs) }(xs...)
+	h := func(xs ...int) { fmt.Println("held-spread", xs) }
+	defer h(xs...)
+	xs = []int{9}
+	args[1] = 5
+	ss = nil
+}
+
+func spreadPanics() {
+	defer func() { fmt.Println("spreadPanics-rec", recover()) }()
+	defer fmt.Println("pending")
+	defer func(es ...error) { panic(es[1]) }([]error{errors.New("e1"), errors.New("e2")}...)
+}
+
+func nilAssert() {
+	defer func() {
+		x := recover()
+		e, ok := x.(error)
+		s, ok2 := x.(fmt.Stringer)
+		fmt.Println("nil-assert", e, ok, s, ok2)
+	}()
+}
+
+func main() {
+	recv()
+	variadic()
+	spreadPanics()
+	nilAssert()
+}
+`},
 }
